@@ -406,6 +406,7 @@ impl Suite for WizardSuite {
         let probe: std::net::SocketAddr = if c.listen >= 2 { format!("[::1]:{}", port) } else { format!("127.0.0.1:{}", port) }.parse().unwrap();
         let ep = match proc::start_existing(&dir.0, "vpn.toml", "hosts.toml", probe, Duration::from_secs(10), "info") {
             Start::Up(e) => e,
+            Start::Exited(_, out) if out.contains("Address already in use") => return viol("harness:port-taken", out),
             Start::Exited(st, out) => {
                 return viol(
                     "wizard:files-not-accepted-by-endpoint",
